@@ -47,11 +47,14 @@ func (authenticator *CertificateAuthenticator) Authenticate(conn Conn) (bool, er
 	if !ok {
 		return false, nil
 	}
-	for _, cert := range conState.PeerCertificates {
-		if 0 < len(authenticator.commonName) {
-			if cert.Subject.CommonName == authenticator.commonName {
-				return true, nil
-			}
+	// Only the client's own (leaf) certificate is checked because the other
+	// certificates of the chain are the certificates of the issuers.
+	if len(conState.PeerCertificates) == 0 {
+		return false, nil
+	}
+	if 0 < len(authenticator.commonName) {
+		if conState.PeerCertificates[0].Subject.CommonName == authenticator.commonName {
+			return true, nil
 		}
 	}
 	return false, nil
